@@ -9,6 +9,13 @@ TRUST = [
 ]
 
 CONFIG = {
+    "C06": {
+        "level": "exploration",
+        "gates_of": ["C01"],
+        "assumptions": TRUST + ["requests are attributed to a client request by resetting the fakes' logs between sequential client requests", "faults are transport-level failures of one recorded downstream call"],
+        "quick": {"tests": [("TestC06", 2500)], "shards": 4, "timeout": 600},
+        "thorough": {"tests": [("TestC06", 30000)], "shards": 16, "timeout": 2400},
+    },
     "C10": {
         "level": "exploration",
         "gates_of": ["C01"],
